@@ -580,6 +580,8 @@ def _main_for(modname, argv=None):
                 "exhaustive": False,
                 "exhaustive_slices": sorted(n for n, a in per_sub.items() if a["exhaustive"]),
                 "replays_run": replayed,
+                "interpreter_modes": ["python (16 shards)"] + (["python -O with CNFGEN_VERIF=0 (one more shard per sub-check; counted apart in evaluations_under_python_O)"] if opt_jobs else []),
+                "evaluations_under_python_O": sum(a["opt_evaluations"] for a in per_sub.values()),
                 "per_subcheck": {
                     name: {"evaluations": a["evaluations"],
                            "distinct_nontrivial": len(a["hashes"]),
